@@ -158,6 +158,33 @@ def calledWorkflow (st : St) (g : DiGraph) : St × DiGraph :=
   let (st2, g2) := insertContext st g.copy
   (st2, g2.copy)
 
+/-! ### Several graphs on one scheduler (`run` submits the parent, `call_workflow` children while it is live) -/
+
+/-- A key as ONE dask scheduler sees it. -/
+inductive SKey where
+  | results                          -- the parent's output task (`run`: `client.get(dsk, 'results')`)
+  | named (u : Nat)                  -- `call_workflow`: `dsk[unique_name] = dsk.pop('results')`
+  | task (inst : Nat) (id : Nat)     -- f'{task.name}-{uuid4()}': fresh for every (as_dask_dict call, task)
+  deriving DecidableEq, Repr
+
+/-- One graph handed to the scheduler.  `inst` numbers the call of `as_dask_dict` that produced it: this is the
+    uuid4 FRESHNESS ASSUMPTION — keys are injective in (graph instance, task). -/
+structure Submission where
+  inst : Nat
+  rename : Option Nat                -- `none`: submitted by `run`; `some u`: by `call_workflow(wf, u, ctx)`
+  dict : List Entry
+
+def Submission.key (s : Submission) : Key → SKey
+  | .results => match s.rename with
+    | none => .results
+    | some u => .named u
+  | .task t => .task s.inst t
+
+def Submission.keys (s : Submission) : List SKey := s.dict.map (fun e => s.key e.key)
+
+/-- All keys the scheduler knows when these graphs are live together. -/
+def schedulerKeys (subs : List Submission) : List SKey := subs.flatMap Submission.keys
+
 /-- What the property asks the dispatcher to run: the workflow as it was passed
     in (`Workflow(...)` is a copy), every context-taking task with the context in
     front of its static inputs, nothing re-ordered. -/
